@@ -48,6 +48,12 @@ func (d *PathDecoder) bodySchemaCandidates(ctx context.Context, body *hclsyntax.
 		for _, name := range attrNames {
 			attr := schema.Attributes[name]
 
+			if schema.Extensions != nil &&
+				((schema.Extensions.Count && name == "count") || (schema.Extensions.ForEach && name == "for_each")) {
+				// the extension takes precedence over an attribute
+				// of the same name (and is offered above)
+				continue
+			}
 			if !isAttributeDeclarable(body, name, attr) {
 				continue
 			}
